@@ -286,3 +286,51 @@ pub const INSTRUMENTED: [&str; 17] = [
     "NamedPrim",
     "SelfRec", "MutA", "MutB", "Cyc1", "Cyc2", "Cyc3", "OnlyAsParam", "ParamOnly", "PCycA", "PCycB", "Shared", "Left", "Right", "Top", "SharedTwin", "SharedAlias",
 ];
+
+thread_local! {
+    static FAULT: std::cell::Cell<bool> = const { std::cell::Cell::new(false) };
+}
+
+/// Failpoint: while set, `FaultyLeaf::type_info()` panics on this thread (an injected fault inside a registration).
+pub fn set_fault(on: bool) {
+    FAULT.with(|f| f.set(on));
+}
+
+pub struct FaultyLeaf;
+impl TypeInfo for FaultyLeaf {
+    type Identity = Self;
+    fn type_info() -> Type {
+        if FAULT.with(|f| f.get()) {
+            panic!("injected fault: type_info() of FaultyLeaf fails");
+        }
+        Type::builder().path(Path::new("FaultyLeaf", M)).composite(Fields::unit())
+    }
+}
+
+/// A sibling of the failing member that completes before the failure is reached (its own members are new types too).
+pub struct FaultyGood;
+impl TypeInfo for FaultyGood {
+    type Identity = Self;
+    fn type_info() -> Type {
+        Type::builder()
+            .path(Path::new("FaultyGood", M))
+            .composite(Fields::named().field(|f| f.ty::<[i16; 7]>().name("x").type_name("[i16; 7]")).field(|f| f.ty::<(i8, i8)>().name("y").type_name("(i8, i8)")))
+    }
+}
+
+pub struct FaultyParent;
+impl TypeInfo for FaultyParent {
+    type Identity = Self;
+    fn type_info() -> Type {
+        Type::builder()
+            .path(Path::new("FaultyParent", M))
+            .composite(Fields::named().field(|f| f.ty::<FaultyGood>().name("good").type_name("FaultyGood")).field(|f| f.ty::<FaultyLeaf>().name("broken").type_name("FaultyLeaf")))
+    }
+}
+
+/// A user type that merely shares its *name* with core's marker type: an ordinary one-member struct whose member
+/// is encoded and must be described wherever the type is used as a member. (Sample / Model impls: sample.rs)
+pub mod units {
+    #[derive(scale_info::TypeInfo, scale::Encode, Clone, Debug, PartialEq, Eq)]
+    pub struct PhantomData<T>(pub T);
+}
